@@ -25,7 +25,10 @@ class Contract:
     def __init__(self, qual, params=None, requires=(), ensures=(), raises=None, modifies=(), returns=None, let=None,
                  inline=False, spec=None, drops=(), props=(), name=None, exc_ensures=None, hints=(),
                  use_at_calls=True, expect_raise_paths=None, path_assumes=(), trusted=False, note=None,
-                 allow_other_exc=(), overrides=None, max_paths=400, timeout_s=None, kwargs_call=None, pure=False, varargs=None, harness=None, module=None, native_patches=None, loop=None, loops=None):
+                 allow_other_exc=(), overrides=None, max_paths=400, timeout_s=None, kwargs_call=None, pure=False, varargs=None, harness=None, module=None, native_patches=None, loop=None, loops=None, sum_scales=(), inline_callees=(), pure_on=None):
+        self.pure_on = pure_on
+        self.inline_callees = tuple(inline_callees)
+        self.sum_scales = list(sum_scales)
         self.loop = loop
         self.loops = loops or {}
         self.native_patches = native_patches or {}
@@ -197,6 +200,8 @@ class Engine:
     def callee_contract(self, qual, it):
         if qual is None:
             return None
+        if self.current is not None and qual in self.current.inline_callees:
+            return None         # this proof looks inside the callee (its body is interpreted instead of its summary)
         c = self.registry.get(qual)
         if c is None or c.inline or not c.use_at_calls:
             return None
@@ -611,6 +616,10 @@ class Engine:
             self.eval_lets(it, c, env, pre=True)
             for nm, ex in c.requires:
                 path.assume(self.eval_clause(it, ex, env))
+            for sx in c.sum_scales:
+                # factors c for the scaling schema  sum(c * s) == c * sum(s)  (proof hint only)
+                sv = self.eval_clause(it, sx, env)
+                path.__dict__.setdefault('sum_scales', []).append(term(sv, True))
             for hx in c.hints:
                 # index terms at which the universal preconditions are to be instantiated (proof hints only)
                 hv = self.eval_clause(it, hx, env)
@@ -803,10 +812,50 @@ class Engine:
         backend = 'z3py-5.1'
         size = sum(1 for _ in axioms.walk(hy + [g])) if len(hy) < 400 else -len(hy)
         model = None
+        if r == z3.unknown and ob.sums:
+            # finite sums: one lemma family at a time (equality / order / scaling / sign by witness) keeps the
+            # nonlinear case splits small; each attempt uses a subset of the sound hypotheses
+            for fam in ('eq', 'order', 'scale', 'nonneg', 'pos'):
+                path.sum_family = fam
+                try:
+                    hyf = axioms.build_hyps(self, ob.hyps, ob.univ, dict(ob.idx), {}, ob.sums, path, goal=g)
+                finally:
+                    path.sum_family = None
+                cone = axioms.cone_of_influence(hyf, g, steps=3, max_nodes=400)
+                s4 = z3.Solver()
+                s4.set('timeout', quick_ms * 2)
+                s4.add(*cone)
+                s4.add(z3.Not(g))
+                if s4.check() == z3.unsat:
+                    r, backend = z3.unsat, f'z3py-5.1/sum-{fam}'
+                    break
+        if r == z3.unknown:
+            # cone of influence: small hypotheses reachable from the goal through shared ground atoms (two steps).
+            # Proving from a subset of the hypotheses is sound.
+            try:
+                cone = axioms.cone_of_influence(hy, g, steps=2, max_nodes=160)
+                for mode in ('default', 'qfnra-nlsat'):
+                    if mode == 'default':
+                        s3 = z3.Solver()
+                        s3.set('timeout', quick_ms)
+                        s3.add(*cone)
+                        s3.add(z3.Not(g))
+                        if s3.check() == z3.unsat:
+                            r, backend = z3.unsat, 'z3py-5.1/cone'
+                            break
+                    else:
+                        gl = z3.Goal()
+                        gl.add(*cone)
+                        gl.add(z3.Not(g))
+                        tr = z3.TryFor(z3.Then('simplify', 'purify-arith', 'propagate-values', 'solve-eqs', mode), quick_ms * 2)(gl)
+                        if len(tr) == 1 and len(tr[0]) == 1 and z3.is_false(tr[0][0]):
+                            r, backend = z3.unsat, 'z3py-5.1/cone-nlsat'
+            except z3.Z3Exception:
+                pass
         if r == z3.unknown:
             # a subset of the hypotheses (the small ones) is often enough and much easier: sound, since fewer
             # hypotheses can only make the goal harder to prove
-            small = [h for h in hy if sum(1 for _ in zip(range(71), axioms.walk([h]))) <= 70]
+            small = [h for h in hy if sum(1 for _ in zip(range(161), axioms.walk([h]))) <= 160]
             if len(small) < len(hy):
                 for mode in ('default', 'nlsat'):
                     try:
